@@ -441,3 +441,294 @@ Proof.
     destruct (shapes_lines z shapes); reflexivity. }
   rewrite S. destruct (shapes_lines z shapes); reflexivity.
 Qed.
+
+(** ** the run: no statement of [run_shapes] carries a free-text comment
+    (every comment is a snapshot of a statement: Proofs/ShexKeys.v, K3) *)
+From Shexer Require Proofs.ShexKeys.
+
+Lemma run_shapes_no_raw fa c thr g ns shapes :
+  run_shapes fa c thr g = inl (ns, shapes) -> shapes_no_raw shapes = true.
+Proof.
+  unfold run_shapes. destruct (full_ns c) as [ns0|]; [|discriminate].
+  destruct (track _ _ _ g) as [ins|]; [|discriminate].
+  destruct (profile (pcfg_of c) ins g) as [[[P C] ID]|[|]]; [|discriminate|discriminate].
+  destruct (shex fa (scfg_of c ns0) thr P C) as [shapes0|e] eqn:E; [|discriminate].
+  intros H; injection H as <- <-.
+  unfold shapes_no_raw. apply forallb_forall. intros sh Hsh.
+  destruct (ShexKeys.K3 fa (scfg_of c ns0) thr P C shapes0 E sh Hsh) as (ce & _ & _ & _ & _ & Hst).
+  apply forallb_forall. intros st Hin. specialize (Hst st Hin).
+  destruct Hst as (ty & pr0 & c0 & _ & _ & _ & Hc & _).
+  unfold no_raw. apply forallb_forall. intros k Hk. rewrite Forall_forall in Hc. specialize (Hc k Hk).
+  destruct k; [reflexivity | contradiction].
+Qed.
+
+(** D2, run level *)
+Theorem run_text_strip_decor fa c dmi mode thr g ls :
+  run_decor_domb fa c dmi mode thr g = true ->
+  run_shexc_decor_lines fa c dmi mode thr g = inl ls ->
+  run_shexc_lines fa c thr g = inl (strip_decor ls).
+Proof.
+  unfold run_decor_domb, run_shexc_decor_lines, run_shexc_lines.
+  destruct (run_shapes fa c thr g) as [[ns shapes]|e] eqn:Er; [|discriminate].
+  destruct (run_decor_data c dmi mode g) as [[ins d]|]; [|discriminate].
+  intros Hd H. rewrite (render_lines_strip _ _ _ _ _ Hd (run_shapes_no_raw _ _ _ _ _ _ Er) H). reflexivity.
+Qed.
+
+Lemma run_shexc_of_lines fa c thr g :
+  run_shexc fa c thr g = match run_shexc_lines fa c thr g with inl ls => inl (List.concat ls) | inr e => inr e end.
+Proof.
+  unfold run_shexc, run_shexc_lines, render. destruct (run_shapes fa c thr g) as [[ns shapes]|e]; [|reflexivity].
+  unfold zcfg_of. destruct (render_lines _ shapes); reflexivity.
+Qed.
+
+Theorem run_text_strip_decor_text fa c dmi mode thr g ls :
+  run_decor_domb fa c dmi mode thr g = true ->
+  run_shexc_decor_lines fa c dmi mode thr g = inl ls ->
+  run_shexc_decor fa c dmi mode thr g = inl (List.concat ls) /\
+  run_shexc fa c thr g = inl (List.concat (strip_decor ls)).
+Proof.
+  intros Hd H. split.
+  - unfold run_shexc_decor. rewrite H. reflexivity.
+  - rewrite run_shexc_of_lines, (run_text_strip_decor _ _ _ _ _ _ _ Hd H). reflexivity.
+Qed.
+
+(** with both options off the decorated run is the plain run *)
+Theorem run_decor_off fa c thr g :
+  run_shexc_decor fa c false None thr g =
+  match run_shexc fa c thr g with inl t => inl t | inr e => inr (DE e) end.
+Proof.
+  unfold run_shexc_decor, run_shexc_decor_lines, run_shexc, render.
+  destruct (run_shapes fa c thr g) as [[ns shapes]|e] eqn:Er; [|reflexivity].
+  assert (exists x, run_decor_data c false None g = Some x) as [[ins d] ->].
+  { unfold run_decor_data. unfold run_shapes in Er. destruct (full_ns c); [|discriminate].
+    unfold tmode_of. destruct (track _ _ _ g) as [ins|]; [|discriminate].
+    destruct (profile (pcfg_of c) ins g) as [[[P C] ID]|[|]]; [|discriminate|discriminate].
+    unfold decor_dict, profile_examples. cbn. eauto. }
+  rewrite render_lines_decor_off. unfold zcfg_of. destruct (render_lines _ shapes); reflexivity.
+Qed.
+
+(** ** D1: the serialiser's decorations leave the structure alone *)
+
+(** [sh'] is [sh] as the serialiser leaves it: same label, class, count and
+    statements (direction, property, types, cardinality, figures); the
+    ordinary comments are intact, at most one example comment was put first *)
+Definition same_structure (ns : nsdict) (sh sh' : shape) : Prop :=
+  sh_name sh' = sh_name sh /\ sh_class sh' = sh_class sh /\ sh_n sh' = sh_n sh /\
+  Forall2 (fun s s' => stmt_core_eq s s' /\
+                       (s_comments s' = s_comments s \/
+                        exists cand, s_comments s' = KRaw (example_comment ns cand) :: s_comments s))
+          (sh_stmts sh) (sh_stmts sh').
+
+Definition printed_as (z : sercfg) (sh : shape) (block : list str) : Prop :=
+  exists sh' mi ex, same_structure (z_ns z) sh sh' /\ shape_lines z sh' mi ex = Some block.
+
+Lemma decorated_structure ns s s' :
+  decorated_stmt ns s s' ->
+  stmt_core_eq s s' /\ (s_comments s' = s_comments s \/
+                        exists cand, s_comments s' = KRaw (example_comment ns cand) :: s_comments s).
+Proof.
+  intros H. split; [eapply decorated_core; exact H|].
+  destruct H as [-> | [cand ->]]; [left; reflexivity | right; exists cand; reflexivity].
+Qed.
+
+Lemma shape_lines_decor_printed z dc d sh block :
+  shape_lines_decor z dc d sh = inl block -> printed_as z sh block.
+Proof.
+  unfold shape_lines_decor.
+  destruct (prefixize_shape_name (z_ns z) (sh_name sh)) as [name|] eqn:En; [|discriminate].
+  destruct (min_iri_text dc d sh) as [mi|e]; [|discriminate].
+  destruct (decorate_stmts z dc d sh) as [stmts|e] eqn:Ed; [|discriminate].
+  destruct (statements_lines z (sh_n sh) stmts) as [body|] eqn:Eb; [|discriminate].
+  destruct (example_text z dc d sh) as [ex|e]; [|discriminate].
+  intros H. exists {| sh_name := sh_name sh; sh_class := sh_class sh; sh_n := sh_n sh; sh_stmts := stmts |}, mi, ex.
+  split.
+  - repeat split. cbn [sh_stmts]. eapply Forall2_imp; [|exact (decorate_stmts_rel _ _ _ _ _ Ed)].
+    intros a b. apply decorated_structure.
+  - unfold shape_lines. cbn [sh_name sh_n sh_stmts]. rewrite En, Eb. f_equal. injection H as H. exact H.
+Qed.
+
+Lemma shapes_lines_decor_blocks z dc d shapes : forall ls,
+  shapes_lines_decor z dc d shapes = inl ls ->
+  exists blocks, ls = List.concat blocks /\ Forall2 (printed_as z) shapes blocks.
+Proof.
+  induction shapes as [|sh shapes IH]; intros ls H.
+  - cbn in H. injection H as <-. exists []. split; [reflexivity | constructor].
+  - cbn [shapes_lines_decor] in H.
+    destruct (shape_lines_decor z dc d sh) as [a|e] eqn:Ea; [|discriminate].
+    destruct (shapes_lines_decor z dc d shapes) as [b|e]; [|discriminate].
+    injection H as <-. destruct (IH b eq_refl) as (blocks & -> & F).
+    exists (a :: blocks). split; [reflexivity|]. constructor; [|exact F].
+    apply (shape_lines_decor_printed _ _ _ _ _ Ea).
+Qed.
+
+Theorem run_structure_unchanged fa c dmi mode thr g ls :
+  run_shexc_decor_lines fa c dmi mode thr g = inl ls ->
+  exists ns shapes blocks,
+    run_shapes fa c thr g = inl (ns, shapes) /\
+    ls = prefix_lines ns ++ List.concat blocks /\
+    Forall2 (printed_as (zcfg_of c ns)) shapes blocks.
+Proof.
+  unfold run_shexc_decor_lines.
+  destruct (run_shapes fa c thr g) as [[ns shapes]|e]; [|discriminate].
+  destruct (run_decor_data c dmi mode g) as [[ins d]|]; [|discriminate].
+  unfold render_lines_decor.
+  destruct (shapes_lines_decor _ _ d shapes) as [ls0|e] eqn:E; [|discriminate].
+  intros H; injection H as <-. destruct (shapes_lines_decor_blocks _ _ _ _ _ E) as (blocks & -> & F).
+  exists ns, shapes, blocks. repeat split. exact F.
+Qed.
+
+(** ** D3: what is printed comes from the data *)
+
+Definition complete_step (d : exdict) (c : str) : exdict :=
+  match dget d c with
+  | Some e => match e_min_iri e with
+              | Some _ => d
+              | None => set_min d c (Some c_MINIMAL_IRI_INIT)
+              end
+  | None => set_min d c (Some c_MINIMAL_IRI_INIT)
+  end.
+
+Lemma complete_features_fold C d : complete_features C d = fold_left complete_step (dkeys C) d.
+Proof. reflexivity. Qed.
+
+Lemma set_min_other d k m c : c <> k -> dget (set_min d k m) c = dget d c.
+Proof. intros H. unfold set_min. apply dget_dset_other. congruence. Qed.
+
+Lemma set_min_same d k m :
+  dget (set_min d k m) k =
+  Some (ExEnt m (e_example (ex_get_or_init d k)) (e_direct (ex_get_or_init d k)) (e_inverse (ex_get_or_init d k))).
+Proof. unfold set_min. apply dget_dset_same. Qed.
+
+Lemma complete_step_keeps d k c e :
+  dget d c = Some e -> e_min_iri e <> None -> dget (complete_step d k) c = Some e.
+Proof.
+  intros G M. unfold complete_step. destruct (str_eq_dec c k) as [->|N].
+  - rewrite G. destruct (e_min_iri e); [exact G | congruence].
+  - destruct (dget d k) as [e'|]; [destruct (e_min_iri e'); [exact G|]|]; rewrite set_min_other; auto.
+Qed.
+
+Lemma complete_step_example d k c : shape_example (complete_step d k) c = shape_example d c.
+Proof.
+  unfold complete_step, shape_example. destruct (str_eq_dec c k) as [->|N].
+  - destruct (dget d k) as [e|] eqn:G.
+    + destruct (e_min_iri e); [rewrite G; reflexivity|]. rewrite set_min_same. unfold ex_get_or_init. rewrite G. reflexivity.
+    + rewrite set_min_same. unfold ex_get_or_init. rewrite G. reflexivity.
+  - destruct (dget d k) as [e'|]; [destruct (e_min_iri e'); [reflexivity|]|]; rewrite set_min_other; auto.
+Qed.
+
+Lemma complete_step_cons d k c p inv : constraint_example (complete_step d k) c p inv = constraint_example d c p inv.
+Proof.
+  unfold complete_step, constraint_example. destruct (str_eq_dec c k) as [->|N].
+  - destruct (dget d k) as [e|] eqn:G.
+    + destruct (e_min_iri e); [rewrite G; reflexivity|]. rewrite set_min_same. unfold ex_get_or_init. rewrite G. reflexivity.
+    + rewrite set_min_same. unfold ex_get_or_init. rewrite G. destruct inv; reflexivity.
+  - destruct (dget d k) as [e'|]; [destruct (e_min_iri e'); [reflexivity|]|]; rewrite set_min_other; auto.
+Qed.
+
+Lemma complete_keeps C d c e :
+  dget d c = Some e -> e_min_iri e <> None -> dget (complete_features C d) c = Some e.
+Proof.
+  rewrite complete_features_fold. revert d. induction (dkeys C) as [|k ks IH]; intros d G M; [exact G|].
+  cbn [fold_left]. apply IH; [apply complete_step_keeps; assumption | exact M].
+Qed.
+
+Lemma complete_example C d c : shape_example (complete_features C d) c = shape_example d c.
+Proof.
+  rewrite complete_features_fold. revert d. induction (dkeys C) as [|k ks IH]; intros d; [reflexivity|].
+  cbn [fold_left]. rewrite IH. apply complete_step_example.
+Qed.
+
+Lemma complete_cons C d c p inv : constraint_example (complete_features C d) c p inv = constraint_example d c p inv.
+Proof.
+  rewrite complete_features_fold. revert d. induction (dkeys C) as [|k ks IH]; intros d; [reflexivity|].
+  cbn [fold_left]. rewrite IH. apply complete_step_cons.
+Qed.
+
+(** the run's data: the tracker's instance dictionary and [profile_examples]
+    of it, completed *)
+Lemma run_decor_data_inv c dmi mode g ins d :
+  run_decor_data c dmi mode g = Some (ins, d) ->
+  track (r_tau c) (tmode_of c) (r_cap c) g = inl ins /\
+  exists d0 C, profile_examples dmi mode (r_inverse c) ins g = Some d0 /\
+               (d = d0 \/ d = complete_features C d0) /\ (dmi = true -> d = complete_features C d0).
+Proof.
+  unfold run_decor_data. destruct (track _ _ _ g) as [ins0|]; [|discriminate].
+  destruct (profile (pcfg_of c) ins0 g) as [[[P C] ID]|]; [|discriminate].
+  unfold decor_dict. destruct (profile_examples dmi mode (r_inverse c) ins0 g) as [d0|] eqn:E; [|discriminate].
+  intros H; injection H as <- <-. split; [reflexivity|]. exists d0, C. split; [exact E|].
+  destruct dmi; cbn [orb]; [split; auto|]. split; [|discriminate].
+  destruct (wants_shape_examples mode); auto.
+Qed.
+
+Theorem printed_stem_is_class_stem c mode g ins d sh :
+  run_decor_data c true mode g = Some (ins, d) ->
+  (exists i, is_instance ins (sh_class sh) i) ->
+  min_iri_text {| d_dmi := true; d_mode := mode; d_inverse := r_inverse c |} d sh =
+  inl (match stem (instances_of ins (sh_class sh)) with
+       | Some s => c17d_stem_pre ++ s ++ c17d_stem_post
+       | None => []
+       end).
+Proof.
+  intros H Hi. destruct (run_decor_data_inv _ _ _ _ _ _ H) as (_ & d0 & C & E & _ & Hd). specialize (Hd eq_refl).
+  pose proof (shape_stem_is_stem ins g mode (r_inverse c) d0 (sh_class sh) E Hi) as S.
+  unfold min_iri_text. cbn [d_dmi]. unfold shape_stem in *.
+  destruct (dget d0 (sh_class sh)) as [e|] eqn:G; [|discriminate].
+  destruct (e_min_iri e) as [l|] eqn:M; [|discriminate].
+  subst d. rewrite (complete_keeps C d0 _ e G) by congruence. rewrite M.
+  injection S as ->. destruct (stem (instances_of ins (sh_class sh))); reflexivity.
+Qed.
+
+Theorem printed_example_from_data c dmi mode g ins d z sh ex :
+  run_decor_data c dmi mode g = Some (ins, d) -> z_ns z <> [] ->
+  example_text z {| d_dmi := dmi; d_mode := mode; d_inverse := r_inverse c |} d sh = inl ex ->
+  (in_modes mode c17d_modes_shape_example = false /\ ex = []) \/
+  exists x, is_instance ins (sh_class sh) x /\
+            ex = c17d_inst_pre ++ iri_or_prefixed (z_ns z) x ++ c17d_inst_post.
+Proof.
+  intros H Hns. destruct (run_decor_data_inv _ _ _ _ _ _ H) as (_ & d0 & C & E & Hd & _).
+  unfold example_text. cbn [d_mode].
+  destruct (in_modes mode c17d_modes_shape_example); [|intros X; injection X as <-; left; split; reflexivity].
+  assert (S : shape_example d (sh_class sh) = shape_example d0 (sh_class sh)).
+  { destruct Hd as [-> | ->]; [reflexivity | apply complete_example]. }
+  unfold shape_example in S.
+  destruct (dget d (sh_class sh)) as [e|].
+  - destruct (e_example e) as [cand|].
+    + intros X; injection X as <-. right. exists cand. split; [|reflexivity].
+      apply (shape_example_sound dmi mode (r_inverse c) ins g d0 _ _ E). unfold shape_example. rewrite <- S. reflexivity.
+    + destruct (z_ns z); [congruence | discriminate].
+  - destruct (z_ns z); [congruence | discriminate].
+Qed.
+
+(** the value printed for a constraint: the stored example, passed through
+    the getter's guess and [_turn_str_comment_into_proper_rdf] *)
+Definition cons_rendered (dc : dcfg) (ns : nsdict) (v : str) : str :=
+  example_comment ns
+    (if prefixb (if d_inverse dc then c17d_prefixize_if_inverse else c17d_prefixize_if_direct) v
+     then prefixize_plain ns v else v).
+
+Lemma kstmt_text_not_example z cnt k ns cand :
+  is_kstmt k = true -> str_eqb (comment_text z cnt k) (example_comment ns cand) = false.
+Proof. destruct k as [ch p n tok c|]; [intros _|discriminate]. destruct ch; reflexivity. Qed.
+
+Theorem printed_cons_example_from_data c dmi mode g ins d z cls cnt s s' :
+  run_decor_data c dmi mode g = Some (ins, d) ->
+  decorate_stmt z {| d_dmi := dmi; d_mode := mode; d_inverse := r_inverse c |} d cls cnt s = inl s' ->
+  s_prop s <> z_tau z -> no_raw s = true ->
+  exists v, constraint_example_ok ins g cls (s_prop s) (r_inverse c && s_inv s) v /\
+            s' = add_comment_first s (KRaw (cons_rendered {| d_dmi := dmi; d_mode := mode; d_inverse := r_inverse c |} (z_ns z) v)).
+Proof.
+  intros H. destruct (run_decor_data_inv _ _ _ _ _ _ H) as (_ & d0 & C & E & Hd & _).
+  unfold decorate_stmt, cons_candidate. cbn [d_inverse]. intros X Hp Hr.
+  apply str_eqb_neq in Hp. rewrite Hp in X.
+  assert (S : constraint_example d cls (s_prop s) (r_inverse c && s_inv s) =
+              constraint_example d0 cls (s_prop s) (r_inverse c && s_inv s)).
+  { destruct Hd as [-> | ->]; [reflexivity | apply complete_cons]. }
+  destruct (constraint_example d cls (s_prop s) (r_inverse c && s_inv s)) as [v|] eqn:G; [|discriminate].
+  exists v. split.
+  - apply (constraint_example_sound dmi mode (r_inverse c) ins g d0 _ _ _ _ E). rewrite <- S. reflexivity.
+  - match type of X with (if existsb ?f ?l then _ else _) = _ => assert (Ex : existsb f l = false) end.
+    { apply not_true_is_false. intros T. apply existsb_exists in T. destruct T as (k & Hk & T).
+      unfold no_raw in Hr. rewrite forallb_forall in Hr. rewrite kstmt_text_not_example in T by (apply Hr; exact Hk).
+      discriminate. }
+    rewrite Ex in X. injection X as <-. reflexivity.
+Qed.
